@@ -545,6 +545,7 @@ class Compiler:
                         j += 1
                     if changed:
                         break
+        items = thread_jumps(items, self.payloads)
         # sizes with goto relaxation
         wide_goto = set()
         while True:
@@ -629,6 +630,86 @@ class Compiler:
         m.units, m.registers, m.ins = units, registers, self.nins
         m.features = set(self.feat)
         return m
+
+
+def thread_jumps(items, payloads=()):
+    """what dx's removeEmptyGotos does: a branch to a block consisting only of `goto X` goes to X directly; gotos nobody reaches are dropped"""
+    for _ in range(20):
+        pos = {it[1]: i for i, it in enumerate(items) if it[0] == "label"}
+
+        def final(lbl):
+            seen = set()
+            while lbl not in seen:
+                seen.add(lbl)
+                j = pos[lbl]
+                while j < len(items) and items[j][0] == "label":
+                    j += 1
+                if j < len(items) and items[j][0] == "ins" and items[j][1] == "goto":
+                    lbl = items[j][2][0][1]
+                else:
+                    break
+            return lbl
+        changed = False
+        for it in items:
+            if it[0] == "ins":
+                for k, o in enumerate(it[2]):
+                    if isinstance(o, tuple) and o[0] == "lbl":
+                        f = final(o[1])
+                        if f != o[1]:
+                            it[2][k] = ("lbl", f)
+                            changed = True
+        for pl in payloads:
+            tg = pl[3]
+            for k, lb in enumerate(tg):
+                f = final(lb)
+                if f != lb:
+                    tg[k] = f
+                    changed = True
+        # referenced labels
+        refs = set()
+        for pl in payloads:
+            refs.update(pl[3])
+        for it in items:
+            if it[0] == "ins":
+                for o in it[2]:
+                    if isinstance(o, tuple) and o[0] == "lbl":
+                        refs.add(o[1])
+        out = []
+        reachable = True
+        for it in items:
+            if it[0] == "label":
+                if it[1] in refs:
+                    reachable = True
+                out.append(it)
+                continue
+            if not reachable:
+                if it[0] == "ins" and it[1] == "goto":
+                    changed = True
+                    continue      # unreachable goto
+                raise AssertionError("unreachable non-goto instruction %r" % (it,))
+            out.append(it)
+            if it[0] == "ins" and it[1] in ("goto", "return", "return-wide"):
+                reachable = False
+        # goto to the directly following label
+        i = 0
+        while i < len(out):
+            it = out[i]
+            if it[0] == "ins" and it[1] == "goto":
+                j = i + 1
+                drop = False
+                while j < len(out) and out[j][0] == "label":
+                    if out[j][1] == it[2][0][1]:
+                        drop = True
+                    j += 1
+                if drop:
+                    del out[i]
+                    changed = True
+                    continue
+            i += 1
+        items = out
+        if not changed:
+            break
+    return items
 
 
 def compile_method(m):
@@ -1505,7 +1586,7 @@ def pattern_methods(rng):
     # ---- PC: single constructs and all two-level nestings
     for a in CONSTRUCTS:
         add("PC", "I", P2, [init] + _pat_construct(a, [_acc()], 0) + [("return", x0)], "nest:" + a, "single")
-        add("PC", "I", P2, [init] + _pat_construct(a, [_acc(), early], 0) + [("return", x0)], "nest:" + a, "single+early-return")
+        add("PC", "I", P2, [init] + _pat_construct(a, [_acc(), early], 0) + [("return", x0)], "ret-in:%s/if" % a, "single+early-return")
         for b in CONSTRUCTS:
             for pos in ("only", "first", "last", "mid"):
                 inner = _pat_construct(b, [_acc()], 1, sel=("var", "p1"))
@@ -1545,8 +1626,11 @@ def pattern_methods(rng):
         for vn, (cases, default) in variants.items():
             sw = ("switch", sel, cases, default, kind)
             tail = [("return", ("bin", "or", "I", x0, 7, "lit8"))]
-            add("PS", "I", P2, [init, sw] + (tail if stmt_falls(sw) else []), "switch:%s:%s" % (kind, vn), "top")
-            add("PS", "I", P2, [init, ("if", ("cmp", "gt", "I", ("var", "p1"), ("var", "p0"), False), [sw], [post])] + tail, "switch:%s:%s" % (kind, vn), "in-if-else")
+            add("PS", "I", P2, [init, sw] + (tail if stmt_falls(sw) else []), "switch:%s:%s@top" % (kind, vn), "top")
+            add("PS", "I", P2, [init, ("if", ("cmp", "gt", "I", ("var", "p1"), ("var", "p0"), False), [sw], [post])] + tail, "switch:%s:%s@nested" % (kind, vn), "in-if-else")
+            if stmt_falls(sw):
+                add("PS", "I", P2, [init, ("assign", "k0", _c(0)), ("while", ("cmp", "lt", "I", ("var", "k0"), _c(3), False),
+                                    [sw, ("assign", "k0", ("bin", "add", "I", ("var", "k0"), 1, "lit8"))], "top")] + tail, "switch:%s:%s@nested" % (kind, vn), "in-while")
     # ---- PD: definitions, declarations, variable types
     c1 = ("cmp", "lt", "I", ("var", "p0"), ("var", "p1"), False)
     T1 = ("assign", "x1", ("bin", "add", "I", ("var", "p0"), 1, "lit8"))
@@ -1574,8 +1658,14 @@ def pattern_methods(rng):
         "two-divs-order": [("assign", "x0", ("bin", "div", "I", ("var", "p0"), ("var", "p1"), "3reg")), ("assign", "x1", ("bin", "rem", "I", ("var", "p1"), ("var", "p0"), "3reg")),
                            ("return", ("bin", "sub", "I", ("var", "x1"), x0, "3reg"))],
     }
+    alias = {"def-only-in-do-while-body-use-after": "def-only-in-do-while-body", "def-only-in-do-while-body-use-after-and-in-body": "def-only-in-do-while-body"}
     for name, body in pd.items():
-        add("PD", "I", P2, body, "decl:" + name, "int")
+        if name == "div-in-unused-nested-expression":
+            add("PD", "I", P2, body, "dead:div-int", name)
+        elif name in ("div-before-branch-used-in-one-branch", "div-before-loop-used-after", "two-divs-order"):
+            add("PD", "I", P2, body, "throw:div-or-rem", name)
+        else:
+            add("PD", "I", P2, body, "decl:" + alias.get(name, name), name)
     for cast in ("int-to-byte", "int-to-char", "int-to-short"):
         N = ("assign", "x1", ("un", cast, ("var", "p0")))
         W_ = ("assign", "x1", ("bin", "add", "I", ("var", "p0"), ("var", "p1"), "3reg"))
@@ -1588,6 +1678,320 @@ def pattern_methods(rng):
             "narrow-in-one-branch-wide-in-other": [("if", c1, [N], [W_]), rx1],
             "narrow-def-used-in-arith": [N, ("return", ("bin", "mul", "I", ("var", "x1"), ("var", "p1"), "3reg"))],
         }
+        mixed = ("wide-def-then-narrow-def-in-branch", "narrow-def-then-wide-def-in-branch", "narrow-in-one-branch-wide-in-other")
         for name, body in tp.items():
-            add("PD", "I", P2, body, "type:%s:%s" % (cast, name), cast)
+            add("PD", "I", P2, body, "type:%s:%s" % (cast, "mixed-defs" if name in mixed else name), name)
     return ms
+
+
+# =====================================================================================================
+# structural features (computed on the AST) - the vocabulary the pattern pools (PC PS PD) use as subjects
+# =====================================================================================================
+def construct_name(s):
+    k = s[0]
+    if k == "if":
+        return "if-else" if s[3] else "if"
+    if k == "while":
+        return "while-" + s[3]
+    if k == "dowhile":
+        return "do-while"
+    if k == "switch":
+        return s[4] + "-switch"
+    return None
+
+
+def sub_blocks(s):
+    k = s[0]
+    if k == "if":
+        return [s[2], s[3]]
+    if k == "while":
+        return [s[2]]
+    if k == "dowhile":
+        return [s[1]]
+    if k == "switch":
+        return [b for _, b, _ in s[2]] + ([s[3]] if s[3] is not None else [])
+    return []
+
+
+def ends_with_return(b):
+    return bool(b) and b[-1][0] == "return"
+
+
+def switch_props(s):
+    _, e, cases, default, kind = s
+    p = set()
+    if default is None:
+        p.add("no-default")
+    elif not default:
+        p.add("empty-default")
+    elif not block_falls(default):
+        p.add("default-returns")
+    nret = 0
+    for i, (ks, body, ft) in enumerate(cases):
+        if len(ks) > 1:
+            p.add("multi-label")
+        if not body:
+            p.add("empty-case")
+        if body and not block_falls(body):
+            nret += 1
+            p.add("case-returns")
+        elif ft and i < len(cases) - 1:
+            p.add("fallthrough")
+            nb = cases[i + 1][1]
+            if nb and not block_falls(nb):
+                p.add("fallthrough-into-return")
+        if any(x[0] == "if" for x in body):
+            p.add("if-in-case")
+    if nret >= 2:
+        p.add("two-cases-return")
+    if nret == len(cases):
+        p.add("all-cases-return")
+    return p
+
+
+# props every switch instance of a PS variant has (used to recognise the variant inside random switches)
+VARIANT_PROPS = {
+    "all-break": set(), "no-default": {"no-default"}, "empty-default": {"empty-default"}, "case-returns": {"case-returns"},
+    "case-returns-no-default": {"case-returns", "no-default"}, "last-case-returns-const": {"case-returns"},
+    "two-labels-return-const": {"case-returns", "two-cases-return", "multi-label", "empty-default"}, "two-cases-return": {"case-returns", "two-cases-return"},
+    "all-cases-return": {"all-cases-return"}, "all-return-incl-default": {"all-cases-return", "default-returns"},
+    "fallthrough": {"fallthrough"}, "fallthrough-into-return": {"fallthrough-into-return"}, "multi-label": {"multi-label"},
+    "empty-case": {"empty-case"}, "empty-cases-empty-default": {"empty-case", "multi-label", "empty-default"}, "default-returns": {"default-returns"},
+    "if-in-case": {"if-in-case"},
+}
+NARROW = ("int-to-byte", "int-to-char", "int-to-short")
+
+
+def structural_features(m):
+    f = set()
+    defs = {}      # local -> set of def kinds ("narrow:<cast>" / "wide")
+
+    def walk(stmts, chain, da):
+        """chain: enclosing construct names, outermost first; da: definitely assigned names. -> da after"""
+        da = set(da)
+        prev_ctl = None
+        for s in stmts:
+            k = s[0]
+            if k in ("assign", "dead"):
+                e = s[2]
+                if k == "assign" and throwing_insns(e):
+                    f.add("throw:div-or-rem")
+                kind = "narrow:" + e[1] if e[0] == "un" and e[1] in NARROW else "wide"
+                defs.setdefault(s[1], set()).add(kind)
+                da.add(s[1])
+                continue
+            if k == "return":
+                if throwing_insns(s[1]):
+                    f.add("throw:div-or-rem")
+                if chain:
+                    f.add("ret-in:" + "/".join(chain[-2:]))
+                continue
+            name = construct_name(s)
+            f.add("nest:" + name)
+            if chain:
+                f.add("nest:%s/%s" % (chain[-1], name))
+            if prev_ctl is not None:
+                f.add("seq:%s;%s" % (prev_ctl, name))
+            prev_ctl = name
+            if k == "if":
+                a = walk(s[2], chain + [name], da)
+                b = walk(s[3], chain + [name], da) if s[3] else set(da)
+                ta, tb = block_falls(s[2]), (block_falls(s[3]) if s[3] else True)
+                da = (a & b) if (ta and tb) else (a if ta else b)
+            elif k == "while":
+                walk(s[2], chain + [name], da)
+            elif k == "dowhile":
+                a = walk(s[1], chain + [name], da)
+                if a - da - {n for n in a if n.startswith("k")}:
+                    f.add("decl:def-only-in-do-while-body")
+                da = a
+            elif k == "switch":
+                props = switch_props(s)
+                where = "@nested" if chain else "@top"
+                for vn, need in VARIANT_PROPS.items():
+                    if need <= props:
+                        f.add("switch:%s:%s%s" % (s[4], vn, where))
+                outs = []
+                for ks, body, ft in s[2]:
+                    o = walk(body, chain + [name], da)
+                    if block_falls(body) and not ft:
+                        outs.append(o)
+                if s[3] is not None:
+                    o = walk(s[3], chain + [name], da)
+                    if block_falls(s[3]):
+                        outs.append(o)
+                    common = None
+                    for o in outs:
+                        common = set(o) if common is None else common & o
+                    da = da | (common or set())
+        return da
+    walk(m.body, [], {n for n, _ in m.params})
+    for v, kinds in defs.items():
+        for kd in kinds:
+            if kd.startswith("narrow:") and "wide" in kinds:
+                f.add("type:%s:mixed-defs" % kd[7:])
+    return f
+
+
+_plain_compile = compile_method
+
+
+def compile_method(m):  # noqa: F811  (adds the structural vocabulary to the instruction-level features)
+    m = _plain_compile(m)
+    m.features |= structural_features(m)
+    return m
+
+
+STRUCT_KINDS = ("nest", "seq", "ret-in", "switch", "decl", "type", "throw")
+
+
+def flatten_construct(s):
+    """benign replacement of a control construct: its first body, once"""
+    k = s[0]
+    if k == "if":
+        b = s[2]
+    elif k == "while":
+        b = s[2]
+    elif k == "dowhile":
+        b = s[1]
+    else:
+        b = s[2][0][1] if s[2] else []
+    return list(b)
+
+
+def neutralise_struct(m, bad):
+    """structural explain-away. -> (compiled method, set of features neutralised)"""
+    done = set()
+
+    def strip_narrow(stmts):
+        out = []
+        for s in stmts:
+            if s[0] in ("assign", "dead") and s[2][0] == "un" and s[2][1] in NARROW and ("type:%s:mixed-defs" % s[2][1]) in bad:
+                done.add("type:%s:mixed-defs" % s[2][1])
+                out.append((s[0], s[1], s[2][2]))
+            elif s[0] in ("assign", "dead", "return"):
+                out.append(s)
+            elif s[0] == "if":
+                out.append(("if", s[1], strip_narrow(s[2]), strip_narrow(s[3])))
+            elif s[0] == "while":
+                out.append(("while", s[1], strip_narrow(s[2]), s[3]))
+            elif s[0] == "dowhile":
+                out.append(("dowhile", strip_narrow(s[1]), s[2]))
+            else:
+                out.append(("switch", s[1], [(ks, strip_narrow(b), ft) for ks, b, ft in s[2]], None if s[3] is None else strip_narrow(s[3]), s[4]))
+        return out
+
+    def walk(stmts, chain):
+        out = []
+        prev_ctl = None
+        for s in stmts:
+            k = s[0]
+            if k in ("assign", "dead"):
+                out.append(s)
+                continue
+            if k == "return":
+                key = "ret-in:" + "/".join(chain[-2:]) if chain else None
+                out.append(s)
+                continue
+            name = construct_name(s)
+            hit = set()
+            for key in ["nest:" + name] + (["nest:%s/%s" % (chain[-1], name)] if chain else []) + (["seq:%s;%s" % (prev_ctl, name)] if prev_ctl else []):
+                if key in bad:
+                    hit.add(key)
+            if k == "switch":
+                props = switch_props(s)
+                where = "@nested" if chain else "@top"
+                for vn, need in VARIANT_PROPS.items():
+                    key = "switch:%s:%s%s" % (s[4], vn, where)
+                    if need <= props and key in bad:
+                        hit.add(key)
+            # a return directly inside this construct (or inside an `if` directly inside it)
+            for b in sub_blocks(s):
+                for t in b:
+                    if t[0] == "return" and ("ret-in:" + "/".join((chain + [name])[-2:])) in bad:
+                        hit.add("ret-in:" + "/".join((chain + [name])[-2:]))
+                    if t[0] == "if":
+                        iname = construct_name(t)
+                        for bb in sub_blocks(t):
+                            if any(u[0] == "return" for u in bb) and ("ret-in:%s/%s" % (name, iname)) in bad:
+                                hit.add("ret-in:%s/%s" % (name, iname))
+            if hit:
+                done.update(hit)
+                flat = [t for t in flatten_construct(s)]
+                flat = walk(flat, chain)
+                # keep the block well-formed: a flattened body that returns ends the block
+                out.extend(flat)
+                if not block_falls(flat):
+                    return out
+                continue
+            prev_ctl = name
+            if k == "if":
+                out.append(("if", s[1], walk(s[2], chain + [name]), walk(s[3], chain + [name])))
+            elif k in ("while", "dowhile"):
+                nb = walk(s[2] if k == "while" else s[1], chain + [name])
+                if not block_falls(nb):      # the body now always returns: not a loop any more
+                    out.extend(nb)
+                    return out
+                out.append(("while", s[1], nb, s[3]) if k == "while" else ("dowhile", nb, s[2]))
+            else:
+                out.append(("switch", s[1], [(ks, walk(b, chain + [name]), ft) for ks, b, ft in s[2]], None if s[3] is None else walk(s[3], chain + [name]), s[4]))
+            if not stmt_falls(out[-1]):
+                return out
+        return out
+
+    body = m.body
+    if any(b.startswith("type:") for b in bad):
+        body = strip_narrow(body)
+    if any(b.split(":")[0] in ("nest", "seq", "switch", "ret-in") for b in bad):
+        body = walk(body, [])
+    if "throw:div-or-rem" in bad and "throw:div-or-rem" in m.features:
+        def ex(e):
+            if e[0] == "un":
+                return ("un", e[1], ex(e[2]))
+            if e[0] == "bin":
+                a = ex(e[3])
+                b = e[4] if isinstance(e[4], int) else ex(e[4])
+                if e[1] in ("div", "rem"):
+                    done.add("throw:div-or-rem")
+                    return ("bin", "xor", e[2], a, mkconst(e[2], b) if isinstance(b, int) else b, "3reg")
+                return ("bin", e[1], e[2], a, b, e[5])
+            return e
+
+        def co(c):
+            if c[0] == "cmp":
+                return ("cmp", c[1], c[2], ex(c[3]), ex(c[4]), c[5])
+            if c[0] == "not":
+                return ("not", co(c[1]))
+            return (c[0], co(c[1]), co(c[2]))
+
+        def bl(b):
+            o = []
+            for s in b:
+                k = s[0]
+                if k in ("assign", "dead"):
+                    o.append((k, s[1], ex(s[2])))
+                elif k == "return":
+                    o.append(("return", ex(s[1])))
+                elif k == "if":
+                    o.append(("if", co(s[1]), bl(s[2]), bl(s[3])))
+                elif k == "while":
+                    o.append(("while", co(s[1]), bl(s[2]), s[3]))
+                elif k == "dowhile":
+                    o.append(("dowhile", bl(s[1]), co(s[2])))
+                else:
+                    o.append(("switch", ex(s[1]), [(ks, bl(b2), ft) for ks, b2, ft in s[2]], None if s[3] is None else bl(s[3]), s[4]))
+            return o
+        body = bl(body)
+    if "decl:def-only-in-do-while-body" in bad and "decl:def-only-in-do-while-body" in m.features:
+        done.add("decl:def-only-in-do-while-body")
+    if not done:
+        return None, done
+    # restructuring can remove definitions: give every local an initial value (also what neutralises the decl:* features)
+    body = [("assign", n, mkconst(t, 0)) for n, t in m.locals if not n.startswith("k")] + body
+    if block_falls(body):
+        body = body + [("return", mkconst(m.ret, 0))]
+    body, _ = mark_dead(body)
+    used = assigned_names(body)
+    n = m.clone(body=body)
+    n.locals = [(a, t) for a, t in m.locals if a in used]
+    return compile_method(n), done
